@@ -5,6 +5,8 @@
   python3 tools/refactor_probe.py unparse   # only re-emit every module through ast.unparse (formatting, parentheses)
   python3 tools/refactor_probe.py swapif    # swap if/else arms of every `if a: .. else: ..` (negating the test)
   python3 tools/refactor_probe.py ifstmt    # `x = A if C else B` -> if C: x = A / else: x = B
+  python3 tools/refactor_probe.py splitpairs # `a, b = E1, E2` -> `a = E1; b = E2` (when E2 does not mention a)
+  python3 tools/refactor_probe.py flipcmp   # `a < b` -> `b > a`, `a == b` -> `b == a`
   python3 tools/refactor_probe.py kwcall    # `f(a, b)` -> `f(x=a, y=b)` for calls of module-level functions of the same module
   python3 tools/refactor_probe.py rettemp   # `return <expr>` -> `_returned = <expr>; return _returned` everywhere
 
@@ -125,6 +127,58 @@ class IfStmt(ast.NodeTransformer):
         return node
 
 
+class SplitPairs(ast.NodeTransformer):
+    """`a, b = E1, E2` -> `a = E1; b = E2` when no later right-hand side mentions an earlier target"""
+
+    def _split(self, stmts):
+        out = []
+        for st in stmts:
+            self.generic_visit(st) if not isinstance(st, (ast.FunctionDef, ast.ClassDef)) else self.visit(st)
+            if isinstance(st, ast.Assign) and len(st.targets) == 1 and isinstance(st.targets[0], ast.Tuple) \
+                    and isinstance(st.value, ast.Tuple) and len(st.targets[0].elts) == len(st.value.elts) \
+                    and all(isinstance(t, ast.Name) for t in st.targets[0].elts) \
+                    and not any(isinstance(v, ast.Starred) for v in st.value.elts):
+                names = [t.id for t in st.targets[0].elts]
+                safe = True
+                for i, v in enumerate(st.value.elts):
+                    used = {n.id for n in ast.walk(v) if isinstance(n, ast.Name)}
+                    if used & set(names[:i]):
+                        safe = False
+                if safe:
+                    for t, v in zip(st.targets[0].elts, st.value.elts):
+                        out.append(ast.copy_location(ast.Assign(targets=[t], value=v), st))
+                    continue
+            out.append(st)
+        return out
+
+    def generic_visit(self, node):
+        for fld in ("body", "orelse", "finalbody"):
+            blk = getattr(node, fld, None)
+            if isinstance(blk, list) and blk and isinstance(blk[0], ast.stmt):
+                setattr(node, fld, self._split(blk))
+        for h in getattr(node, "handlers", []) or []:
+            h.body = self._split(h.body)
+        return node
+
+    def visit_FunctionDef(self, node):
+        return self.generic_visit(node)
+
+    visit_ClassDef = visit_FunctionDef
+    visit_Module = visit_FunctionDef
+
+
+class FlipCmp(ast.NodeTransformer):
+    """`a < b` -> `b > a`, `a == b` -> `b == a` ... (single comparisons)"""
+    MIRROR = {ast.Lt: ast.Gt, ast.Gt: ast.Lt, ast.LtE: ast.GtE, ast.GtE: ast.LtE, ast.Eq: ast.Eq, ast.NotEq: ast.NotEq}
+
+    def visit_Compare(self, node: ast.Compare):
+        self.generic_visit(node)
+        if len(node.ops) == 1 and type(node.ops[0]) in self.MIRROR:
+            return ast.copy_location(ast.Compare(left=node.comparators[0], ops=[self.MIRROR[type(node.ops[0])]()],
+                                                 comparators=[node.left]), node)
+        return node
+
+
 class KwCall(ast.NodeTransformer):
     """`f(a, b)` -> `f(x=a, y=b)` for calls of undecorated module-level functions of the same module"""
 
@@ -171,6 +225,10 @@ def main():
                 tree = RetTemp().visit(tree)
             elif mode == "ifstmt":
                 tree = IfStmt().visit(tree)
+            elif mode == "splitpairs":
+                tree = SplitPairs().visit(tree)
+            elif mode == "flipcmp":
+                tree = FlipCmp().visit(tree)
             elif mode == "kwcall":
                 tree = KwCall(tree).visit(tree)
             ast.fix_missing_locations(tree)
